@@ -76,7 +76,40 @@ def convert(task):
         signal.setitimer(signal.ITIMER_REAL, 0)
 
 
-def run_all(tasks, workers=14):
+def count_convert(task):
+    """task = (cfg, doc, limit_s) -> dict(status, calls): number of rule-handler invocations (block + inline parse_method
+    calls, including those of nested inline parses such as TOC entries) — a deterministic measure of scanning work"""
+    cfg, doc, limit = task
+    sys.path.insert(0, os.environ.get("MISTUNE_SRC", "/repo/src"))
+    signal.signal(signal.SIGALRM, _alarm)
+    import configs
+    try:
+        md = configs.make(cfg)
+    except Exception as e:
+        return {"status": "exc", "exc": type(e).__name__, "where": "construct", "msg": str(e)[:200]}
+    calls = [0]
+    for parser in (md.block, md.inline):
+        orig = parser.parse_method
+        def counting(m, state, orig=orig):
+            calls[0] += 1
+            return orig(m, state)
+        parser.parse_method = counting
+    signal.setitimer(signal.ITIMER_REAL, limit)
+    t0 = time.process_time()
+    try:
+        md(doc)
+        return {"status": "ok", "calls": calls[0], "cpu": time.process_time() - t0}
+    except Timeout:
+        return {"status": "timeout", "calls": calls[0], "cpu": time.process_time() - t0}
+    except RecursionError:
+        return {"status": "exc", "exc": "RecursionError", "where": "", "msg": ""}
+    except Exception as e:
+        return {"status": "exc", "exc": type(e).__name__, "where": frame_sig(e.__traceback__), "msg": str(e)[:200]}
+    finally:
+        signal.setitimer(signal.ITIMER_REAL, 0)
+
+
+def run_all(tasks, workers=14, fn=None):
     """returns list of results aligned with tasks; a task that kills its worker is reported as status=crash"""
     results = [None] * len(tasks)
     pending = list(range(len(tasks)))
@@ -84,7 +117,7 @@ def run_all(tasks, workers=14):
     while pending:
         try:
             with ProcessPoolExecutor(max_workers=workers) as ex:
-                for i, r in zip(pending, ex.map(convert, [tasks[i] for i in pending], chunksize=8)):
+                for i, r in zip(pending, ex.map(fn or convert, [tasks[i] for i in pending], chunksize=8)):
                     results[i] = r
             pending = []
         except BrokenProcessPool:
@@ -93,7 +126,7 @@ def run_all(tasks, workers=14):
             for i in rest:
                 try:
                     with ProcessPoolExecutor(max_workers=1) as ex:
-                        results[i] = list(ex.map(convert, [tasks[i]]))[0]
+                        results[i] = list(ex.map(fn or convert, [tasks[i]]))[0]
                 except BrokenProcessPool:
                     results[i] = {"status": "crash"}
             pending = []
